@@ -87,3 +87,25 @@ def replay(ctx, res, v):
     out = ctx.tlc("Obs_Facts", "Obs.cfg", env_extra={"VERIF_OBS": path})
     for b in out["tags"].get("BAD", []):
         res.violation({"rule": "fact." + "+".join(sorted(b["facts"])), "pattern": v["pattern"], "input": b["s"], "match_at": b["pos"]})
+
+
+def attribute(ctx, viols, gate):
+    """a fact that fails only because a gate-identified rewrite changed what the pattern matches: re-export the facts of the
+    same patterns with the gate on and let TLC judge them again; violations of patterns that are clean then belong to the finding"""
+    cases, idx = [], {}
+    for v in viols:
+        if "p" not in v:
+            continue
+        key = json.dumps([v["p"], v["options"], v["rtl"], v["codegen"]])
+        if key not in idx:
+            idx[key] = len(cases) + 1
+            cases.append({"p": v["p"], "o": v["options"], "dia": v["dialect"], "rtl": v["rtl"], "codegen": v["codegen"], "alpha": v["alpha"], "maxlen": v["maxlen"]})
+    if not cases:
+        return []
+    cpath = os.path.join(ctx.dir, f"attr-{gate}.json")
+    json.dump(cases, open(cpath, "w"))
+    path = os.path.join(ctx.dir, f"attr-{gate}.ndjson")
+    ctx.run_vh(["record-facts", "-case", cpath, "-o", path], env_extra={"VERIF_GATES": gate})
+    out = ctx.tlc("Obs_Facts", "Obs.cfg", env_extra={"VERIF_OBS": path})
+    still = {b["id"] for b in out["tags"].get("BAD", [])}
+    return [v for v in viols if "p" in v and idx[json.dumps([v["p"], v["options"], v["rtl"], v["codegen"]])] not in still]
